@@ -12,7 +12,7 @@ VARIABLES base, prog, nb
 vars == <<base, prog, nb>>
 
 Bases ==
-    CASE Camp = "locals"  -> {[types |-> "plain", locals |-> l, customs |-> 0] : l \in {"none", "a", "aa", "ab"}}
+    CASE Camp = "locals"  -> {[types |-> "plain", locals |-> l, customs |-> 0, comp |-> c] : l \in {"none", "a", "aa", "ab"}, c \in BOOLEAN}
       [] Camp = "build"   -> {[types |-> t, locals |-> "a", customs |-> 0] : t \in {"plain", "rec"}}
       [] Camp = "types"   -> {[types |-> t, locals |-> "none", customs |-> 0] : t \in {"plain", "rec"}}
       [] Camp = "adds"    -> {[types |-> "plain", locals |-> "none", customs |-> 1]}
@@ -20,6 +20,8 @@ Bases ==
 
 LocalOps == {[op |-> "add_local", f |-> f, ty |-> t, via |-> v] :
                 f \in {1, 2}, t \in {"i32", "f64"}, v \in {"modifier", "modifier_many", "iter"}}
+\* on a module inside a component: the modifier of comp.modules[0] and ComponentIterator::add_local
+CompLocalOps == {[op |-> "add_local", f |-> f, ty |-> t, via |-> v] : f \in {1, 2}, t \in {"i32", "v128"}, v \in {"modifier", "iter"}}
 
 Bodies(results) ==
     IF results = <<>> THEN {<<>>, <<"nop">>, <<"i32_const_7", "drop">>, <<"call_0">>, <<"i64_const_m1", "drop", "nop">>,
@@ -68,7 +70,7 @@ CustOps ==
   \cup {[op |-> "cust_del", id |-> i] : i \in 0 .. 3}
   \cup {[op |-> "cust_mod", id |-> i, bytes |-> "bb0" \o ToString(nb)] : i \in 0 .. 3}
 
-Ops == CASE Camp = "locals" -> LocalOps
+Ops == CASE Camp = "locals" -> (IF base.comp THEN CompLocalOps ELSE LocalOps)
          [] Camp = "build" -> {o \in BuildOps : ValidBuild(o)} \cup ReplaceOps \cup {o \in LocalOps : o.f = 2 /\ o.via = "modifier" /\ o.ty = "f64"}
                               \cup {[op |-> "conv", f |-> 2]}
          [] Camp = "types" -> TypeOps
